@@ -6,7 +6,7 @@ import os
 from collections import Counter, defaultdict
 from typing import TYPE_CHECKING
 from typing import Counter as CounterType
-from typing import DefaultDict, Dict, Generator, Iterable, Set
+from typing import DefaultDict, Dict, Generator, Iterable, Set, Tuple
 from weakref import finalize, ref
 
 import numpy as np
@@ -29,6 +29,7 @@ _views_waiting_for_unlock: DefaultDict[int, Set[int]] = defaultdict(set)
 
 __all__ = [
     "lock_arr_writeability",
+    "lock_unique_arrs_and_bases",
     "release_writeability_lock_on_op",
     "mem_guard_off",
     "mem_guard_on",
@@ -103,6 +104,31 @@ def unique_arrs_and_bases(
                     yield arr.base
             seen.add(arr_id)
             yield arr
+
+
+def lock_unique_arrs_and_bases(
+    tensors: Iterable["TensorType"],
+) -> Tuple[np.ndarray, ...]:
+    """Locks each distinct array (and the base of each view) among the data of
+    `tensors` once, and returns the arrays that were locked.
+
+    Arrays that are read-only in their own right are left alone (and are not
+    returned). This is settled for all of the arrays before any of them is
+    locked: locking a base must not make its natively read-only views - e.g.
+    the result of `numpy.broadcast_to` - look as if mygrad had locked them,
+    which would make them writeable once the lock is released."""
+    arrs = tuple(unique_arrs_and_bases(tensors))
+    natively_read_only = tuple(
+        not arr.flags.writeable
+        and not array_is_tracked(arr)
+        and (arr.base is None or not array_is_tracked(arr.base))
+        for arr in arrs
+    )
+    return tuple(
+        lock_arr_writeability(arr)
+        for arr, read_only in zip(arrs, natively_read_only)
+        if not read_only
+    )
 
 
 def _release_lock_on_arr_writeability(arr: np.ndarray):
@@ -387,10 +413,7 @@ def mem_guard_active() -> bool:
 
 
 def force_lock_tensor_and_creators(tensor: "TensorType"):
-    unique_arrs = tuple(
-        lock_arr_writeability(arr)
-        for arr in unique_arrs_and_bases(tensor.creator.variables)
-    )
+    unique_arrs = lock_unique_arrs_and_bases(tensor.creator.variables)
     lock_arr_writeability(tensor.data, force_lock=True)
     tensor_refs = WeakRefIterable(unique_arrs)
     tensor_refs.append(tensor.data)
